@@ -28,6 +28,7 @@ ASSUMPTIONS = [
     "block F: the event queue handed over empty and filled afterwards; two non-overlapping sessions carrying the same session id; block B includes sessions that request 0 kWh",
     "small-scope: <=3 stations, <=4 sessions, arrivals<=3, stays<=4, periods 1/5/7.5 min",
     "reference model: occupant(station,t) = the session with arrival<=t<departure; scheduler alphabets are scripted max-pilot (1- and 3-period schedules), empty script, uncontrolled, FCFS greedy",
+    "block G: a ChargingNetwork object whose first simulation has completed (all stations vacant) is handed to a second Simulator with fresh sessions",
     "infeasible scripted schedules legitimately only warn; warnings are not violations",
 ]
 CHUNK = 40
@@ -149,6 +150,12 @@ def space(tier, seed):
                 twin = [dict(ss[0]), dict(ss[1], sid=ss[0]["sid"])]
                 for sk, k in (("max1", 1), ("unc", 1), ("fcfs", 1)):
                     items.append({"net": netname, "sessions": twin, "sched": SCHEDS[sk], "sk": sk, "k": k, "period": 1})
+    # ---- block G: the network OBJECT of a completed simulation (every station vacated) serves a second simulator
+    for netname, stations in (("N1", ["PS-A", "PS-B"]), ("N2", ["PS-A", "PS-C"])):
+        pool = [sess(st, a, sy) for st in stations for a in (0, 1, 2) for sy in (1, 3)]
+        for ss in S.session_subsets(pool, 1, 2):
+            for sk, k in (("max1", 1), ("unc", None), ("fcfs", 1)):
+                items.append({"net": netname, "sessions": ss, "sched": SCHEDS[sk], "sk": sk, "k": k, "period": 1, "second_sim": True})
     return items
 
 
@@ -254,6 +261,14 @@ def on_call(rec, active_sessions, r):
 
 
 def execute(scn):
+    if scn.get("second_sim"):
+        first = S.run_sim(scn, on_call=on_call)
+        if first.error is None:
+            # same sessions (fresh EV objects, fresh queue, fresh scheduler) on the network object the first run used
+            tr = S.run_sim(scn, on_call=on_call, net=first.sim.network)
+            viol = []
+            check(scn, tr, lambda sig, what, o=None, e=None: viol.append(("second-simulator-on-one-network:" + sig, what, o, e)))
+            return tr, viol
     tr = S.run_sim(scn, on_call=on_call)
     viol = []
     check(scn, tr, lambda sig, what, o=None, e=None: viol.append((sig, what, o, e)))
